@@ -16,7 +16,7 @@ RULE = (
     "layer-A template program and of corpus programs; (b) every line deletion / duplication / adjacent "
     "swap; (c) all PAIRS of token mutations on small templates (thorough); (d) ALL token strings of "
     "length <= L over a 24-symbol alphabet placed as one statement; (e) every single-byte replacement "
-    "of a small file by bytes that are not valid UTF-8, read through FortranFileReader; x std x "
+    "of a small file by bytes that are not valid UTF-8, read through FortranFileReader; (f) a trailing comment after each statement (and after all) of every template and corpus program, comments kept and dropped; x std x "
     "ignore_comments. Oracle: parse (and str of the tree) returns, or raises FortranSyntaxError, "
     "within 20 s. Non-trivial = mutant differs from the base program."
 )
@@ -118,6 +118,9 @@ def classify(o):
             # qualify by source line text to identify the class
             rule = _owner(f.filename, f.lineno)
             break
+    if o.exc_type == "CaseTimeout":
+        # where the alarm happened to interrupt the parse is not part of the finding
+        return "C06|timeout|no result within 20 s", "the parse did not return within 20 s (interrupted in %s, rule %s)" % (where, rule)
     return "C06|escape|%s|%s|%s" % (o.exc_type, where, rule), "%s: %s" % (o.exc_type, mask_digits((o.msg or "")[:160]))
 
 
@@ -190,6 +193,11 @@ def plan(tier, seed):
             tasks.append(("V", tier, "B", first, d))
     for pid in sorted(corpus.corpus()):
         tasks.append(("V", tier, "E", pid, 0))
+    # trailing comments after every statement of every template program (and
+    # of the corpus), comments kept and dropped
+    for j in range(0, len(ts), 24):
+        tasks.append(("T", tier, tuple(t[0] for t in ts[j : j + 24])))
+    tasks.append(("T", tier, ("@corpus",)))
     if b["pairs"]:
         for j in range(0, len(ts), 2):
             tasks.append(("P", tier, tuple(t[0] for t in ts[j : j + 2])))
@@ -364,6 +372,27 @@ def run(task):
                     for ic in (True, False):
                         run_one(res, text, std, ic, "%s + %r in every gap" % (pid, ex), base)
         res.sample({"program": progs[0][0], "input": "\n".join([" " + l for l in stmts[:2]] + ["#define X 1"] + [" " + l for l in stmts[2:4]])})
+    elif kind == "T":
+        tmap = {t[0]: t for t in G.templates()}
+        if task[2] == ("@corpus",):
+            progs = [("E/" + pid, pr) for pid, pr in sorted(corpus.corpus().items())]
+        else:
+            progs = [(tid, explore.run(G.template_scenario(*tmap[tid]), ())[1]) for tid in task[2]]
+        comments = ["! note", "! it's", "!$omp x"] if tier != "quick" else ["! note"]
+        for pid, prog in progs:
+            lines = [s.line() for s in prog if s.kind != "program_anon"]
+            base = "\n".join(" " + l for l in lines) + "\n"
+            stds = G.stds_for(prog)
+            where = list(range(len(lines))) + ["all"]
+            if task[2] == ("@corpus",) and tier == "quick":
+                where = [0, 1, "all"]
+            for wi in where:
+                for c in comments:
+                    text = "\n".join(" " + l + (" " + c if (wi == "all" or wi == i) else "") for i, l in enumerate(lines)) + "\n"
+                    for std in stds:
+                        for ic in (False, True):
+                            run_one(res, text, std, ic, "%s + trailing comment %r after statement %s" % (pid, c, wi if wi == "all" else wi + 1), base)
+        res.sample({"program": progs[0][0], "input": "\n".join(" " + l + " ! note" for l in [s.line() for s in progs[0][1] if s.kind != "program_anon"])})
     elif kind == "P":
         alphabet = ["(", ")", ",", "=", ":", "'", "end", "&"]
         tmap = {t[0]: t for t in G.templates()}
